@@ -229,6 +229,41 @@ def steady {σ} (S : Sys σ) (s : Sim σ) (res : Option Nat) : Out (Sim σ) :=
   | (ig, none) => ({ s with integ := ig, errors := s.errors + 1 }, none)
   | (ig, some row) => (handle { s with integ := ig } [row] Gen.steadySkipfirst, none)
 
+/-! #### the same two calls when the solver FAILS: `solve_ivp` returns `res.success == False`, so
+`Scipy.integrate_time_course` returns `Result(IntegrationFailure())` WITHOUT advancing `t0` / `y0`, and
+`_handle_simulation_results` (`case _ as e`) appends it to `_errors`.  Everything that raises before the integration
+(the refusal test, `solve_ivp`'s own validation of `t_eval`, empty arrays) raises all the same; a zero-length span cannot
+fail (nothing is integrated), it still ends in the IndexError of `t[-1]`. -/
+
+/-- `Simulator.simulate` with a failing solver -/
+def simulateF {σ} (S : Sys σ) (s : Sim σ) (tEnd : Rat) (steps : Option Nat) : Out (Sim σ) :=
+  if s.errors > 0 then (s, none) else
+  match reached? s.segs with
+  | .error e => (s, some e)
+  | .ok prior =>
+    let tRel := unshift s.shift tEnd
+    let tCmp := if Gen.simulateChecksBeforeShift then tEnd else tRel
+    if Gen.simulateRefusal.eval tCmp prior then (s, some .valueError) else
+    match integrate S s.pars s.integ tRel steps with
+    | .error e => (s, some e)
+    | .ok _ => ({ s with errors := s.errors + 1 }, none)
+
+/-- `Simulator.simulate_time_course` with a failing solver -/
+def timeCourseF {σ} (S : Sys σ) (s : Sim σ) (pts : List Rat) : Out (Sim σ) :=
+  if s.errors > 0 then (s, none) else
+  match reached? s.segs with
+  | .error e => (s, some e)
+  | .ok prior =>
+    match pts.getLast? with
+    | none => (s, some .indexError)
+    | some last =>
+      let seen := fun t => if Gen.timeCourseChecksBeforeShift then t else unshift s.shift t
+      if Gen.timeCourseRefusal.eval (seen last) prior then (s, some .valueError) else
+      let kept := pts.filter (fun t => Gen.timeCourseKeep.eval (seen t) prior)
+      match integrateTimeCourse S s.pars s.integ (kept.map (unshift s.shift)) with
+      | .error e => (s, some e)
+      | .ok _ => ({ s with errors := s.errors + 1 }, none)
+
 /-- `d[k] = v` for an existing key; `none` when `k` is not a parameter -/
 def parsSet : Pars → Name → Rat → Option Pars
   | [], _, _ => none
@@ -255,6 +290,28 @@ def parsUpdate (p : Pars) (kvs : Upd) : Out Pars :=
 
 def updPars {σ} (s : Sim σ) (kvs : Upd) : Out (Sim σ) :=
   let r := parsUpdate s.pars kvs
+  ({ s with pars := r.1 }, r.2)
+
+/-- `{k: self._scaled_value(k, v) for k, v in parameters.items()}` (model.py): every new value `old * factor` is
+    computed from the parameters as they are; `none` = `self._parameters[name]` raises KeyError for an unknown name -/
+def scaledValues (p : Pars) : Upd → Option Upd
+  | [] => some []
+  | (k, f) :: rest =>
+    match p.lookup k with
+    | none => none
+    | some v => match scaledValues p rest with
+      | none => none
+      | some r => some ((k, v * f) :: r)
+
+/-- `Model.scale_parameters` = `update_parameters` of the scaled values; `Model.scale_parameter` is the one-pair case -/
+def parsScale (p : Pars) (kvs : Upd) : Out Pars :=
+  match scaledValues p kvs with
+  | none => (p, some .keyError)
+  | some u => parsUpdate p u
+
+/-- `Simulator.scale_parameter(s)` -/
+def scalePars {σ} (s : Sim σ) (kvs : Upd) : Out (Sim σ) :=
+  let r := parsScale s.pars kvs
   ({ s with pars := r.1 }, r.2)
 
 /-- `Simulator._initialise_integrator` -/
@@ -297,6 +354,9 @@ inductive Op where
   | updPars (kvs : Upd)
   | updVars (ov : Upd)
   | clear
+  | simulateF (tEnd : Rat) (steps : Option Nat)     -- `simulate`, the solver reports failure
+  | timeCourseF (pts : List Rat)                    -- `simulate_time_course`, the solver reports failure
+  | scalePars (kvs : Upd)                           -- `scale_parameter(s)`
 deriving Repr, DecidableEq
 
 def step {σ} (S : Sys σ) (s : Sim σ) : Op → Out (Sim σ)
@@ -306,6 +366,9 @@ def step {σ} (S : Sys σ) (s : Sim σ) : Op → Out (Sim σ)
   | .updPars kvs => updPars s kvs
   | .updVars ov => updVars S s ov
   | .clear => (clear s, none)
+  | .simulateF t n => simulateF S s t n
+  | .timeCourseF pts => timeCourseF S s pts
+  | .scalePars kvs => scalePars s kvs
 
 /-- a history: every op is attempted, exceptions are recorded and the state at the raise kept -/
 def run {σ} (S : Sys σ) (s : Sim σ) : List Op → Sim σ × List (Option Exc)
@@ -375,8 +438,30 @@ def steady {σ} (S : Sys σ) (a : Spec σ) (res : Option Nat) : Out (Spec σ) :=
     ({ a with segs := some (appendSeg a.segs [(a.now + d, y)] a.pars false),
               now := a.now + d, cur := y }, none)
 
+/-- a failing solver: the call is checked like any other, then the simulator is failed and nothing is recorded -/
+def simulateF {σ} (_S : Sys σ) (a : Spec σ) (tEnd : Rat) (steps : Option Nat) : Out (Spec σ) :=
+  if a.failed then (a, none) else
+  if tEnd ≤ a.now then (a, some .valueError) else
+  if nPoints steps < 2 then (a, some .indexError) else
+  ({ a with failed := true }, none)
+
+def timeCourseF {σ} (_S : Sys σ) (a : Spec σ) (pts : List Rat) : Out (Spec σ) :=
+  if a.failed then (a, none) else
+  match pts.getLast? with
+  | none => (a, some .indexError)
+  | some last =>
+    if last ≤ a.now then (a, some .valueError) else
+    let kept := pts.filter (a.now ≤ ·)
+    let grid := if kept.head? == some a.now then kept else a.now :: kept
+    if !strictInc grid then (a, some .valueError) else
+    ({ a with failed := true }, none)
+
 def updPars {σ} (a : Spec σ) (kvs : Upd) : Out (Spec σ) :=
   let r := parsUpdate a.pars kvs
+  ({ a with pars := r.1 }, r.2)
+
+def scalePars {σ} (a : Spec σ) (kvs : Upd) : Out (Spec σ) :=
+  let r := parsScale a.pars kvs
   ({ a with pars := r.1 }, r.2)
 
 def updVars {σ} (S : Sys σ) (a : Spec σ) (ov : Upd) : Out (Spec σ) :=
@@ -393,6 +478,9 @@ def step {σ} (S : Sys σ) (a : Spec σ) : Op → Out (Spec σ)
   | .updPars kvs => updPars a kvs
   | .updVars ov => updVars S a ov
   | .clear => (clear a, none)
+  | .simulateF t n => simulateF S a t n
+  | .timeCourseF pts => timeCourseF S a pts
+  | .scalePars kvs => scalePars a kvs
 
 def run {σ} (S : Sys σ) (a : Spec σ) : List Op → Spec σ × List (Option Exc)
   | [] => (a, [])
